@@ -322,6 +322,39 @@ Definition invoke (w : world) (faults : step -> bool) (fl : flags) (orig_has_fil
   end.
 
 (* ------------------------------------------------------------------------------------------ *)
+(* -compile <out>: the output file                                                             *)
+
+(* `go build -o <out>` when the build succeeds, as observed with go 1.23: nothing there, a regular
+   file or a symbolic link (the LINK is replaced, not written through) -> the binary; a directory
+   -> the binary is put inside it under the name [inner].  A failing build leaves <out> alone, and
+   Invoke itself never touches exePath (main.go:450-453 only prints the error). *)
+Definition install (bin : bytes) (inner : string) (e : option entry) : entry :=
+  match e with
+  | Some (Dir es) => Dir (set inner (File bin) es)
+  | _ => File bin
+  end.
+
+(* the -compile run got as far as `return 0` after the build (main.go:463) *)
+Definition compiled (fl : flags) (o : outcome) : bool :=
+  f_compile fl && match o_at o with Some CompileExit => true | _ => false end.
+
+(* what is at the output path afterwards, wherever that path is *)
+Definition output_after (fl : flags) (o : outcome) (bin : bytes) (inner : string) (e : option entry) : option entry :=
+  if compiled fl o then Some (install bin inner e) else e.
+
+(* Invoke when the output path is the entry [out] of the magefile directory itself (a relative
+   path is resolved by the go tool, which runs in inv.Dir).  Modelled at the level of complete
+   runs: the output is written by the GoBuild step iff that step succeeds, and after a successful
+   build a -compile run cannot fail any more. *)
+Definition invoke_compile (w : world) (faults : step -> bool) (fl : flags) (out : string) (bin : bytes) (inner : string)
+  (d : fs) : fs * nat :=
+  let o := invoke_dir_full w faults fl d in
+  (match output_after fl o bin inner (lookup (o_fs o) out) with
+   | Some e => if compiled fl o then set out e (o_fs o) else o_fs o
+   | None => o_fs o
+   end, o_exit o).
+
+(* ------------------------------------------------------------------------------------------ *)
 (* -init : generateInit, O_WRONLY|O_CREATE|O_EXCL                                              *)
 
 Definition init_cmd (open_fault write_fault : bool) (tpl partial : bytes) (d : fs) : fs * nat :=
